@@ -1,6 +1,6 @@
 """Per-property configuration of the checks."""
 import glob, os
-import gens_core, gens_codec, gens_text
+import gens_core, gens_codec, gens_text, gens_cli
 
 V = '/verif'
 
@@ -24,6 +24,11 @@ COMMON_ASSUMPTIONS = [
     'outside D the model still mirrors the 32-bit wraps and the correspondence is still run, but the property is not claimed',
     'the operating system delivers the bytes written by pwritev/ftruncate to later preadv calls of the same file',
 ]
+
+
+def ignore_missing_side(x, y):
+    """when both sides are missing, which one the report names depends on the scheduling of the two reads"""
+    return y == 'out missing any' and x.startswith('out missing ')
 
 
 def entry(gen, quick, thorough, rule, modelled='', **kw):
@@ -66,12 +71,27 @@ PROPS = {
                  'one point too few, zeros, 2^31 and 2^32 neighbours), methods 0..9, float32 xFilesFactor patterns incl. NaN/Inf/-0, through '
                  'NewHeader, Header.TakeFrom, ParseArchiveInfoList, Create+Sync+Open and the CLI flags; non-trivial when something is accepted',
                  'NewHeader, fillOffset, validate, Header.TakeFrom, ParseArchiveInfoList, Create/Open, cmd/flags.go', shrink=False),
+    'C08': entry(gens_cli.gen_c08, 150, 2500, 'real CopyCommand runs on generated source/destination pairs (sparse, NaN holes, coarser archives '
+                 'inconsistent with finer ones; missing, fresh, filled, partly equal, equal and mismatching destinations; default, narrow, past, '
+                 'beyond-retention, degenerate and future windows; archive selections incl. out of range; both NaN modes; glob trees); '
+                 'non-trivial when a destination fetch returns a value', 'cmd/copy.go, cmd/timeserieslist.go, cmd/view.go fetchTimeSeriesList', shrink=False, timeout=3000),
+    'C09': entry(gens_cli.gen_c09, 200, 3000, 'real DiffCommand runs on file pairs (same, exact copy, few slots differ, NaN vs value, +0 vs -0, last bit, '
+                 'missing sides, differing layouts, unsynced destination), both directions, glob trees; non-trivial when both files were read',
+                 'cmd/diff.go', shrink=False, ignore=ignore_missing_side),
+    'C10': entry(gens_cli.gen_c10, 150, 2500, 'real SumCommand runs on item trees of 1-12 files with holes, all-NaN columns, a file of differing layout '
+                 'in first/middle/last position, patterns matching nothing, order-sensitive values with the first file held locked', 'cmd/sum.go, cmd/glob.go', shrink=False),
+    'C11': entry(gens_cli.gen_c11, 100, 2000, 'real SumCopyCommand / SumDiffCommand runs on item trees with absent, empty, partial, stale and mismatching '
+                 'destinations; sum-diff before and after, a later change of one source slot, second sum-copy', 'cmd/sum_copy.go, cmd/sum_diff.go', shrink=False, ignore=ignore_missing_side),
+    'C18': entry(gens_cli.gen_c18, 200, 3000, 'real ViewCommand / ViewRawCommand runs (header on/off, sort on/off, windows incl. degenerate, archive selections) '
+                 'on files with 17-digit values, infinities and NaN; text parsed back with Go\'s own ParseFloat/time.Parse', 'cmd/view.go, cmd/view_raw.go, cmd/points_list.go', shrink=False),
+    'C20': entry(gens_cli.gen_c20, 150, 2500, 'real GenerateCommand runs at the wall clock (small steps, so every alignment of the instant to the steps occurs), '
+                 'fill on/off, maxima incl. 0, existing destination', 'cmd/generate.go', shrink=False),
 }
 
 
 def extra_nontrivial(res):
     for l in res['impl']:
-        if ' series ' in l or ' ok' in l or (l.startswith('enc ') and l != 'enc err'):
+        if ' series ' in l or ' ok' in l or l.startswith('out ') or (l.startswith('enc ') and l != 'enc err'):
             return True
     return False
 
